@@ -25,4 +25,7 @@ def units(ctx):
         McUnit("workerpool", "DispatcherWakeImpl", "nolock", name="ctl-wake-signal-without-lock", expect="DispatcherExits"),
         # forced schedule of that counterexample (verif yield point in Stack.PopOrWait) + free-running submitters / nested submits / Shutdown, conservation validated by TLC on every recorded execution
         TraceUnit("workerpool", "PoolRun", "poolstress", args=["-traces", 40], thorough_args=["-traces", 400]),
+        # controlled executions of a group tree (stopping points: the pending counters' lock acquisitions, hook 8964680, and the
+        # task bodies): a WaitChildren that returns has seen a moment at which nothing below the group was pending
+        TraceUnit("workerpool", "GroupRun", "grouprun", args=["-traces", 60], thorough_args=["-traces", 800]),
     ]
